@@ -184,6 +184,9 @@ class Interp(ExprMixin, StmtMixin):
             return self.call_closure(callee, args)
         if isinstance(callee, BoundM):
             return self.call_method(callee, args, kwargs, node)
+        if isinstance(callee, ZV) and (callee.tag or "").startswith("ClassOf:"):
+            # `cls(...)` in a classmethod: the class the contract declares (subclasses constructing themselves are outside)
+            return self.inline_ctor(callee.tag[len("ClassOf:"):], args, kwargs, node)
         if isinstance(callee, ZV):
             h = R.METHODS.get((base_tag(callee.tag), "__call__"))
             if h:
